@@ -93,10 +93,10 @@ PROPS.update({
             "not_proved": ["C03_step / C03_history (every wf_store) and C03_written_file_history (files of the writer model) are proved for every admissible history of one cursor (clones are value copies: each follows its own history); " + WPROG + "; relative moves issued after a None are unspecified by the property and are only shown to keep the cache coherent when they return"]},
     "C04": {"prop_file": "props/C04.v", "scenarios": [{"name": "iter-c04"}], "rule": HIST_RULE + "; 24 ranges per file over all 9 bound-kind pairs with equal and inverted bounds forced, both directions",
             "trusted": READER_TRUST, "assumptions": [],
-            "not_proved": ["C04_range (collect (range_iter) = filter in_range; reverse = rev): needs R; validated against Spec.range_spec on every query"]},
+            "not_proved": ["C04_range / C04_rev_range are proved for every wf_store and for the files of the writer model (non-empty input); " + WPROG + "; ranges over the empty file, and calls made after the first None (unspecified by the property), are covered by the correspondence only"]},
     "C05": {"prop_file": "props/C05.v", "scenarios": [{"name": "iter-c05"}], "rule": HIST_RULE + "; 24 prefixes per file: empty, 0xFF runs, proper prefixes of stored keys, prefixes whose successor is a stored key, key+FF, random; both directions",
             "trusted": READER_TRUST, "assumptions": [],
-            "not_proved": ["C05_prefix (collect (prefix_iter) = filter has_prefix; reverse = rev): advance_key and the prefix-interval fact are proved (C05_advance_key_spec); the composition with the cursor needs R; validated against Spec.prefix_spec on every query"]},
+            "not_proved": ["C05_prefix / C05_rev_prefix are proved for every wf_store and for the files of the writer model (non-empty input; the reverse iterator under the hypothesis that keys and prefix are byte strings, every element < 256); " + WPROG + "; the empty file and calls after the first None are covered by the correspondence only"]},
     "C16": {"prop_file": "props/C16.v", "scenarios": [{"name": "hist-c16"}], "rule": HIST_RULE + "; block loads (absolute seeks) counted per operation by an instrumented source",
             "trusted": READER_TRUST, "assumptions": [],
             "not_proved": ["C16_loads (every wf_store) and C16_written_file_loads (files of the writer model) are proved; " + WPROG + "; the count is of block loads in the model, tied to the implementation's seeks by the instrumented source of the correspondence"]},
@@ -185,8 +185,8 @@ _PARTIAL = " Partial proof: see not_proved in the evidence file. Trusted: Coq ke
 MANIFEST_TEXT.update({
     "C02": _mt("Proved on the executable model: in-block seeks return the exact floor/ceiling on every well-formed block (C02_block_floor, C02_block_ceiling), every block finished by the block writer is well-formed (C02_finished_blocks_wellformed), and the whole multi-level cursor returns the exact ceiling/floor/match of the content from ANY state of ANY well-formed store of any depth (C02_seeks: the ceiling is found through the index because items carry last keys), and every file the writer model finishes from a non-empty ascending input is such a store with exactly the inserted content (C02_written_file_seeks). Every run: every probe class on fresh/reset cursors through implementation, executable model and specification, incl. multi-level files with several blocks per index level and V1/0.4.7-independent layouts.", "DESIGN.md §5 C02", "Axioms: none." + _PARTIAL, "Rocq proof (refinement of the multi-level cursor to the abstract cursor, composed with the writer tree invariant) + implementation/model/specification differential execution over all probe classes"),
     "C03": _mt("Proved on the executable model for any index depth (C03_step, C03_history): on every well-formed store the cursor refines the abstract cursor Fresh|At i|Unspec — after ANY history first/last/seeks return the specified entry, next/prev step to the neighbour, current is the last returned entry, and the per-level block cache stays coherent (the invariant the D2 defect broke); composed with the writer invariant, the same holds on every file the writer model finishes from a non-empty ascending input, with the abstract cursor running over the inserted entries themselves (C03_written_file_history); plus in-block moves as index moves and the structural lemmas. Every run: random multi-cursor histories with results, per-operation block loads and the fingerprint of every cached block compared between implementation and model after every step, results compared with the abstract cursor wherever it specifies them; the D2 replay runs first.", "DESIGN.md §5 C03", "Axiom: functional_extensionality_dep (stdlib)." + _PARTIAL, "Rocq proof (refinement to an abstract cursor by a cache-coherence invariant over operation histories) + state-level implementation/model correspondence on operation histories + abstract-cursor oracle"),
-    "C04": _mt("Proved: the specification is the filter by both bounds; shape of the iterator step. Every run: ranges over all bound-kind pairs (equal, inverted, absent, present bounds), forward and reverse, through implementation, model and specification.", "DESIGN.md §5 C04", "Axioms: none." + _PARTIAL, "Rocq proof (specification lemmas) + implementation/model/specification differential execution"),
-    "C05": _mt("Proved for all byte strings: advance_key returns None exactly for all-0xFF prefixes and otherwise the exclusive upper end of the interval of keys sharing the prefix (C05_advance_key_spec). Every run: prefixes of every class (empty, 0xFF runs, successor stored, longer than every key) forward and reverse through implementation, model and specification.", "DESIGN.md §5 C05", "Axioms: none." + _PARTIAL, "Rocq proof (induction on the prefix: carry loop, prefix interval) + implementation/model/specification differential execution"),
+    "C04": _mt("Proved on the executable models for all bounds (C04_range, C04_rev_range, C04_written_range, C04_written_rev_range): on every well-formed store of any index depth, and on every file the writer model finishes from a non-empty ascending input, the forward range iterator collects up to its first None exactly the filter of the content by both bounds in ascending order, the reverse iterator exactly its reverse — by composing the cursor refinement with a scan lemma (sortedness turns the first-match seek and the stop-at-first-failure into filters). Every run: ranges over all bound-kind pairs (equal, inverted, absent, present bounds), forward and reverse, through implementation, model and specification.", "DESIGN.md §5 C04", "Axioms: none." + _PARTIAL, "Rocq proof (iterator = filter, over the cursor refinement and the writer invariant) + implementation/model/specification differential execution"),
+    "C05": _mt("Proved for all byte strings: advance_key returns None exactly for all-0xFF prefixes and otherwise the exclusive upper end of the interval of keys sharing the prefix (C05_advance_key_spec); and on the executable models (C05_prefix, C05_rev_prefix, C05_written_prefix, C05_written_rev_prefix) the forward prefix iterator collects, up to its first None, exactly the entries whose key starts with the prefix in ascending order and the reverse iterator exactly their reverse, on every well-formed store and on every file the writer model finishes from a non-empty ascending input (the reverse one uses that a failed lower-or-equal seek leaves current() on an entry above the probe: R_le_none). Every run: prefixes of every class (empty, 0xFF runs, successor stored, longer than every key) forward and reverse through implementation, model and specification.", "DESIGN.md §5 C05", "Axioms: none." + _PARTIAL, "Rocq proof (induction on the prefix: carry loop, prefix interval; iterator = filter over the cursor refinement and the writer invariant) + implementation/model/specification differential execution"),
     "C06": _mt("Proved on the executable model: heap pops remove exactly one element, which sources enter the heap, empty sources yield nothing without a merge call. The full merge theorem is proved on the abstract merger (design-notes). Every run: outputs, the exact sequence of (key, values) the merge function receives, failures of the merge function, and the file produced through a writer, for implementation vs model, plus the three defining clauses evaluated on the implementation's output.", "DESIGN.md §5 C06", "Axioms: none." + _PARTIAL, "Rocq proof (heap lemmas; abstract merge theorem) + implementation/model differential execution with call logging"),
     "C07": _mt("Proved on the executable model: the sort step is a sorted permutation. The spill/merge independence is proved on the abstract model (design-notes). Every run: all three output paths of the real sorter under tiny budgets (hundreds of spills and chunk merges per case), both algorithms, rayon on/off, equal to the model and to sort-and-merge of the inserts.", "DESIGN.md §5 C07", "Axioms: none." + _PARTIAL, "Rocq proof (sort lemmas; abstract chunk-merge theorem) + implementation/model/specification differential execution"),
     "C08": _mt("Proved for unbounded insert sequences (C08_bounds, C08_volume): under 64 <= T < 2^64, capacity <= T, M >= 1 and entries <= T/4 every insert succeeds, the unspilled volume stays <= 2T (T without realloc), at most M+2 chunks are alive, every chunk comes from the creator. Every run: buffer triple and chunk count after every insert equal to the model, creator calls equal, live-chunk peak <= model.", "DESIGN.md §5 C08", "Axioms: none. Complete for the numeric model; its tie to sorter.rs is the per-insert comparison." + _PARTIAL, "Rocq proof (invariant by induction over inserts, doubling-loop termination) + per-insert state correspondence"),
